@@ -246,7 +246,54 @@ func c07DataReplay(r *Run, replay *Case) {
 
 // layout resolution has no memory: on ONE engine, pages of different directories that name the same layout are rendered one after the
 // other in every order; each output must be what a fresh engine gives for that page alone
+// c07BaseAppears: `layouts/base.vuego` is applied when, and only when, the page names no layout and that file EXISTS — at the time of the
+// render: the file appears, disappears and appears again under a long-lived engine (both constructors)
+func c07BaseAppears(r *Run) {
+	lay := `<main data-m="base"><div v-html="content"></div></main>`
+	for _, ctor := range []string{"NewFS", "New+WithFS"} {
+		for _, start := range []bool{false, true} {
+			mfs := fstest.MapFS{"p.vuego": &fstest.MapFile{Data: []byte(`<p data-m="page">x</p>`), ModTime: time.Unix(1700000000, 0)},
+				"q.vuego":             &fstest.MapFile{Data: []byte("---\nlayout: other\n---\n<p data-m=\"page\">q</p>"), ModTime: time.Unix(1700000000, 0)},
+				"layouts/other.vuego": &fstest.MapFile{Data: []byte(`<section data-m="other"><div v-html="content"></div></section>`), ModTime: time.Unix(1700000000, 0)}}
+			present := start
+			if present {
+				mfs["layouts/base.vuego"] = &fstest.MapFile{Data: []byte(lay), ModTime: time.Unix(1700000000, 0)}
+			}
+			var long vuego.Template
+			if ctor == "NewFS" {
+				long = vuego.NewFS(mfs)
+			} else {
+				long = vuego.New(vuego.WithFS(mfs))
+			}
+			for step := 0; step < 5; step++ {
+				for _, page := range []string{"p.vuego", "q.vuego"} {
+					var buf bytes.Buffer
+					err := long.Load(page).Fill(map[string]any{}).Render(context.Background(), &buf)
+					got := buf.String()
+					wrapped := strings.Contains(got, `data-m="base"`)
+					want := present && page == "p.vuego"
+					c := &Case{Name: fmt.Sprintf("base appears: %s start=%v step %d page %s present=%v", ctor, start, step, page, present), Input: map[string]any{"op": "history", "stream": "base-appears"},
+						Impl: map[string]any{"out": got}, Key: fmt.Sprintf("baseappears|%s|%v|%d|%s", ctor, start, step, page), Tags: []string{"stream:base-appears"}, Oracle: &Verdict{OK: true}}
+					if err != nil || wrapped != want || !strings.Contains(got, `data-m="page"`) {
+						c.Oracle = &Verdict{OK: false, Class: "default-layout-not-by-current-files:" + ctor, Detail: fmt.Sprintf("%s: layouts/base.vuego present=%v, page %s names %s layout: default applied=%v, err=%v; output %q", c.Name, present, page,
+							map[bool]string{true: "no", false: "a"}[page == "p.vuego"], wrapped, err, got)}
+					}
+					r.Add(c)
+				}
+				// toggle the file
+				present = !present
+				if present {
+					mfs["layouts/base.vuego"] = &fstest.MapFile{Data: []byte(lay), ModTime: time.Unix(1700000000+int64(step)+1, 0)}
+				} else {
+					delete(mfs, "layouts/base.vuego")
+				}
+			}
+		}
+	}
+}
+
 func c07History(r *Run) {
+	c07BaseAppears(r)
 	lay := func(m string) string { return `<div data-m="` + m + `"><div v-html="content"></div></div>` }
 	pg := func(l string) string { return "---\nlayout: " + l + "\n---\n<p data-m=\"page\">x</p>" }
 	sets := []map[string]string{
